@@ -46,7 +46,7 @@ import (
 )
 
 type caseData struct {
-	Kind string `json:"kind"` // archives | plugins | mutants | download | limits | update
+	Kind string `json:"kind"` // archives | plugins | mutants | download | limits | update | aimed
 	Seed int64  `json:"seed"`
 	N    int    `json:"n"`
 	Only int    `json:"only,omitempty"` // replay aid: only the i-th sub-case (1-based)
@@ -59,6 +59,7 @@ func init() {
 		ID:    "C16",
 		Level: "exploration",
 		Rule: "archives = benign chart/plugin entries + 1-2 hostile entries drawn from a grammar of ~45 name shapes (absolute, ../ chains to depth 5, inner ../, backslash and mixed separators, drive prefixes, empty/./slash, very long/deep, NUL, look-alikes, names aimed at planted links) x 15 type flags x 6 size-field forms x ustar/PAX/GNU long-name encodings x position/duplication, and structure-aware byte mutants (13 kinds) of a valid package; each is fed to LoadArchive, LoadArchiveFiles, Expand, ExpandFile, Extract and (every 4th) Pull --untar over 17 destination layouts with planted symlinks; " +
+			"aimed = names without '..', root or drive prefix whose first or only component is a symlink really present below the archive root (listed after planting; 12 layouts + control), the component boundary written in 13 (directory links) / 8 (file links) spellings of '/', '\\', doubled and mixed separators, '/./', '\\.\\', leading './' '.\\', trailing separator x reg/regA/dir x ustar/PAX/GNU x hostile entry first or after the directory entries, fed to Extract (plugin archives) and Expand/ExpandFile (chart archives); " +
 			"DownloadTo gets 21 URL-path shapes x verify mode x 3 layouts; Manager.Update gets v1/v2 charts with symlinks planted at Chart.lock/requirements.lock pointing to 6 kinds of targets; 13 size-limit streams x 4 entry points with lowered limits. " +
 			"distinct_nontrivial counts distinct (entry point, layout, hostile feature tags, accepted/rejected) tuples.",
 		Assumptions: []string{
@@ -85,7 +86,7 @@ func genCases(seed int64, tier string) []core.Case {
 				id = mode + "-" + id
 			}
 			cd := caseData{Kind: kind, Seed: rng.Int63(), N: n}
-			if kind == "download" || kind == "limits" || kind == "update" {
+			if kind == "download" || kind == "limits" || kind == "update" || kind == "aimed" {
 				cd.Off = i * n // these kinds enumerate a fixed scenario table: every case continues where the previous one stopped
 			}
 			out = append(out, core.Case{ID: id, Mode: mode, Data: core.J(cd)})
@@ -103,6 +104,9 @@ func genCases(seed int64, tier string) []core.Case {
 		add("mutants", "strace", 1, 60)
 		add("download", "strace", 1, 42)
 		add("update", "strace", 1, 160)
+		// appended last: the seeds of the cases above stay what they were
+		add("aimed", "", 16, 156)
+		add("aimed", "strace", 1, 104)
 	} else {
 		add("archives", "", 20, 75)
 		add("plugins", "", 6, 75)
@@ -110,6 +114,7 @@ func genCases(seed int64, tier string) []core.Case {
 		add("download", "", 4, 63)
 		add("limits", "", 4, 26)
 		add("update", "", 4, 40)
+		add("aimed", "", 4, 91)
 	}
 	return out
 }
@@ -197,6 +202,8 @@ func run(c core.Case, verbose bool) core.Result {
 			rc.runLimit(d.Off + i)
 		case "update":
 			rc.runUpdate(d.Off + i)
+		case "aimed":
+			rc.runAimed(d.Off+i, sub)
 		}
 	}
 	if res.Sample == nil {
@@ -295,7 +302,9 @@ func post(a *core.Agg) string {
 	need := map[string]int64{"subcases_LoadArchive": 500, "subcases_Expand": 500, "subcases_Extract": 500, "subcases_Pull": 100, "subcases_DownloadTo": 60,
 		"subcases_Manager.Update": 60, "update_scenarios_with_symlink_at_sibling_or_temporary_name": 60, "producer_offset_checks": 20, "over_limit_archives_rejected": 20, "under_limit_controls_accepted": 8,
 		"update_controls_wrote_regular_lock": 4, "accepted_Expand": 20, "accepted_Extract": 5, "accepted_Pull": 5, "accepted_DownloadTo": 10,
-		"subcases_on_layouts_with_planted_symlinks_or_files": 500}
+		"subcases_on_layouts_with_planted_symlinks_or_files": 500,
+		"aimed_names_whose_component_is_a_planted_symlink":   150, "aimed_names_with_backslash_boundary_at_a_planted_symlink_reached_first_Extract": 20,
+		"aimed_names_with_backslash_boundary_at_a_planted_symlink_Expand": 15, "aimed_accepted": 20}
 	for k, n := range need {
 		if a.Stats[k] < n {
 			miss = append(miss, fmt.Sprintf("%s=%d (<%d)", k, a.Stats[k], n))
